@@ -1088,6 +1088,10 @@ pub fn run(ops: &[String]) -> Vec<String> {
 						}
 					}
 				}
+				"twchk" => {
+					tween_time_oracle(&tok, l, &ids, out);
+					out.put("ok");
+				}
 				"run" => {
 					let r = run.as_mut().unwrap();
 					let sig = tok[1];
@@ -1668,6 +1672,10 @@ pub fn gen(rng: &mut Rng, n: usize, thorough: bool, stats: &mut Stats) -> Vec<St
 			gen_probe(rng, case, thorough, stats, &mut out);
 			continue;
 		}
+		if rng.chance(1, 8) {
+			gen_tween_time_case(rng, case, stats, &mut out);
+			continue;
+		}
 		let ind = !rng.chance(1, 7);
 		let kind = rng.pick(&["vol", "pan", "filter", "filter", "eq", "eq", "dist", "comp", "comp"]);
 		let is_static = rng.chance(1, 2);
@@ -1781,4 +1789,191 @@ pub fn gen(rng: &mut Rng, n: usize, thorough: bool, stats: &mut Stats) -> Vec<St
 		}
 	}
 	out
+}
+
+// ------------------------------------------------------------------------------------------
+// C06 on the effects: every handle-settable parameter, tweened over a non-zero duration while the effect is
+// processed in blocks of more than one frame
+// ------------------------------------------------------------------------------------------
+
+fn lcg_frames(seed: &mut u64, amp: f32, n: usize) -> Vec<Frame> {
+	(0..n)
+		.map(|_| {
+			let s1 = lcg_next(*seed);
+			let s2 = lcg_next(s1);
+			*seed = s2;
+			Frame::new(lcg_val(s1) * amp, lcg_val(s2) * amp)
+		})
+		.collect()
+}
+
+/// `twchk <sr> <N> <param> <target> <delay ns> <dur ns> <easing> <amp32> <seed> new <kind> …` (oracle only; the twin
+/// prints `ok`).  Three instances of the effect described by the `new …` tail get the same noise, `dt = 1/sr`:
+///   A: `set <param> <target>` with the tween (start delayed by <delay>, duration <dur>), processed in blocks of N frames;
+///   C: the same, processed frame by frame;      B: the same `set` with an instant tween, blocks of N.
+/// C06 (a tween ends on its target after its duration of AUDIO time, however that time is cut into updates): once
+/// delay + duration (rounded up to a block, plus two blocks for the per-block sampling) has been processed, the
+/// parameter sits at its target in all three.  Memoryless effects (volume, panning, distortion) must then give
+/// identical output; for the filters and the compressor the memory of the tween decays (pole radius of the final
+/// design / the envelope's time constants), after which the outputs must agree closely.
+fn tween_time_oracle(tok: &[&str], line: &str, ids: &Ids, out: &mut Out) {
+	let (sr, n) = (pu(tok[1]) as u32, pu(tok[2]) as usize);
+	let (param, target) = (tok[3], tok[4]);
+	let (delay, dur) = (pu(tok[5]), pu(tok[6]));
+	let (amp, mut seed) = (p32(tok[8]), pu(tok[9]));
+	let new = &tok[10..];
+	let kind = new[1];
+	let dt = 1.0 / sr as f64;
+	// the settings after the tween: the `new` line with the target in place
+	let pos = params_of(kind).iter().position(|(p, _, _)| *p == param).expect("twchk: parameter");
+	let mut fin: Vec<&str> = new.to_vec();
+	fin[2 + has_mode(kind) as usize + pos] = target;
+	let sp = Spec::from_new(&fin, true);
+	// frames until the memory of the tween has decayed, and the comparison
+	let (settle, cmp) = match kind {
+		"vol" | "pan" | "dist" => (0usize, Cmp::Bits),
+		"filter" | "eq" => {
+			let (rf, g, k) = sp.design(dt).unwrap();
+			let r = pole_radius(g, k);
+			if !(rf < 0.45 && r < 1.0) {
+				return;
+			}
+			((30.0 / (1.0 / r).ln()).ceil() as usize, Cmp::Abs(4e-3 * amp.abs() as f64))
+		}
+		_ => {
+			let tau = sp.p("attack").max(sp.p("release"));
+			((30.0 * tau / dt).ceil() as usize + 1, Cmp::Rel(2e-3))
+		}
+	};
+	if settle > 40_000 {
+		return;
+	}
+	let tween = Tween {
+		start_time: if delay == 0 { kira::StartTime::Immediate } else { kira::StartTime::Delayed(Duration::from_nanos(delay)) },
+		duration: Duration::from_nanos(dur),
+		easing: parse_easing(tok[7]),
+	};
+	let instant = Tween { duration: Duration::ZERO, ..Default::default() };
+	let mk = |tw: Tween, ibs: usize| {
+		let mut i = build(new, ids);
+		i.fx.init(sr, ibs);
+		i.fx.on_start_processing();
+		i.set(param, target, tw, ids);
+		i.fx.on_start_processing();
+		i
+	};
+	let (mut a, mut b, mut c) = (mk(tween, n), mk(instant, n), mk(tween, 1));
+	let info = kira::info::MockInfoBuilder::new().build();
+	let tween_frames = ((delay + dur) as f64 * 1e-9 * sr as f64).ceil() as usize;
+	let blocks = tween_frames.div_ceil(n) + 2 + settle.div_ceil(n);
+	let window = 4usize.max(64 / n);
+	let (mut oa, mut ob, mut oc) = (vec![], vec![], vec![]);
+	for j in 0..blocks + window {
+		let x = lcg_frames(&mut seed, amp, n);
+		let (mut xa, mut xb, mut xc) = (x.clone(), x.clone(), x);
+		a.process(&mut xa, dt, &info);
+		b.process(&mut xb, dt, &info);
+		for f in xc.chunks_mut(1) {
+			c.process(f, dt, &info);
+		}
+		if j >= blocks {
+			// parameters are sampled once per block: compare where every instance is at a block end
+			oa.push(*xa.last().unwrap());
+			ob.push(*xb.last().unwrap());
+			oc.push(*xc.last().unwrap());
+		}
+	}
+	if !(all_finite(&oa) && all_finite(&ob) && all_finite(&oc)) {
+		return;
+	}
+	let agree = |u: &[Frame], v: &[Frame]| match cmp {
+		Cmp::Bits => same_bits(u, v),
+		Cmp::Abs(t) => u.iter().zip(v).all(|(p, q)| close(p.left, q.left, t) && close(p.right, q.right, t)),
+		Cmp::Rel(r) => u.iter().zip(v).all(|(p, q)| {
+			let t = |u: f32, v: f32| r * (u.abs().max(v.abs()) as f64) + 1e-6;
+			close(p.left, q.left, t(p.left, q.left)) && close(p.right, q.right, t(p.right, q.right))
+		}),
+	};
+	evald(out, "tween_audio_time");
+	if !agree(&oa, &ob) {
+		out.oracle_fail("tween_audio_time", format!("{} {}: blocks of {} not on target after the tween | {}", kind, param, n, line));
+	}
+	if !agree(&oc, &ob) {
+		out.oracle_fail("tween_audio_time", format!("{} {}: frame by frame not on target after the tween | {}", kind, param, line));
+	}
+	if !agree(&oa, &oc) {
+		out.oracle_fail("tween_block_size_invariance", format!("{} {}: blocks of {} vs 1 | {}", kind, param, n, line));
+	}
+}
+
+/// one case per (effect, parameter): moderate fixed settings, the parameter tweened to another value while the
+/// effect runs in blocks of N > 1 frames (ops mirrored by the twin), then the `twchk` oracle on the same data
+fn gen_tween_time_case(rng: &mut Rng, case: usize, stats: &mut Stats, out: &mut Vec<String>) {
+	let all: Vec<(&str, &str)> = PARAMS.iter().flat_map(|(k, ps)| ps.iter().map(move |(p, _, _)| (*k, *p))).collect();
+	let (kind, param) = all[rng.below(all.len() as u64) as usize];
+	let f32s = |rng: &mut Rng, pool: &[f32]| format!("fix:{}", o32(rng.pick(pool)));
+	let f64s = |rng: &mut Rng, pool: &[f64]| format!("fix:{}", o64(rng.pick(pool)));
+	let durs = |rng: &mut Rng, pool: &[u64]| format!("fix:{}", rng.pick(pool));
+	// (name, value) in builder order, drawn twice: the initial settings and the pool the target comes from
+	let draw = |rng: &mut Rng| -> Vec<(&'static str, String)> {
+		match kind {
+			"vol" => vec![("volume", f32s(rng, &[0.0, -6.0, 6.0, -12.0, 3.0]))],
+			"pan" => vec![("panning", f32s(rng, &[0.0, -0.5, 1.0, 0.5, -1.0]))],
+			"filter" => vec![
+				("cutoff", f64s(rng, &[500.0, 1000.0, 2000.0, 250.0, 4000.0])),
+				("resonance", f64s(rng, &[0.0, 0.3, 0.5, 0.1])),
+				("mix", f32s(rng, &[1.0, 0.5, 0.25])),
+			],
+			"eq" => vec![
+				("frequency", f64s(rng, &[500.0, 1000.0, 3000.0, 200.0])),
+				("gain", f32s(rng, &[0.0, 6.0, -6.0, 12.0, -12.0])),
+				("q", f64s(rng, &[0.7, 1.0, 2.0, 0.5])),
+			],
+			"dist" => vec![("drive", f32s(rng, &[0.0, 6.0, 12.0, 24.0])), ("mix", f32s(rng, &[1.0, 0.5, 0.25]))],
+			_ => vec![
+				("threshold", f64s(rng, &[-24.0, -30.0, -18.0, -12.0])),
+				("ratio", f64s(rng, &[2.0, 4.0, 8.0, 1.5])),
+				("attack", durs(rng, &[1_000_000, 2_000_000, 5_000_000, 500_000])),
+				("release", durs(rng, &[5_000_000, 10_000_000, 20_000_000, 2_000_000])),
+				("makeup", f32s(rng, &[0.0, 6.0, -6.0, 12.0])),
+				("mix", f32s(rng, &[1.0, 0.5, 0.25])),
+			],
+		}
+	};
+	let init = draw(rng);
+	let start = init.iter().find(|(p, _)| *p == param).unwrap().1.clone();
+	let mut target = start.clone();
+	while target == start {
+		target = draw(rng).into_iter().find(|(p, _)| *p == param).unwrap().1;
+	}
+	let mode = match kind {
+		"filter" => format!(" {}", rng.pick(&["lp", "bp", "hp", "notch"])),
+		"eq" => format!(" {}", rng.pick(&["bell", "ls", "hs"])),
+		"dist" => format!(" {}", rng.pick(&["hard", "soft"])),
+		_ => String::new(),
+	};
+	let new = format!("new {}{} {}", kind, mode, init.iter().map(|(_, v)| v.clone()).collect::<Vec<_>>().join(" "));
+	let sr = rng.pick(&[22050u64, 32000, 44100, 48000]);
+	let n = rng.pick(&[2u64, 3, 16, 64, 128, 128]);
+	let delay = rng.pick(&[0u64, 0, 0, 2_000_000, 10_000_000]);
+	let dur = rng.pick(&[5_000_000u64, 10_000_000, 20_000_000, 50_000_000, 3_333_333]);
+	let easing = fmt_easing(&if rng.chance(1, 2) { kira::Easing::Linear } else { gen_easing(rng) });
+	let amp = rng.pick(&[0.5f32, 0.25, 1.0]);
+	let seed = rng.below(1 << 40);
+	let dt = 1.0 / sr as f64;
+	out.push(format!("case {} in", case));
+	out.push(new.clone());
+	out.push(format!("init {} {}", sr, n));
+	out.push("start".into());
+	out.push(format!("set {} {} {};{};{}", param, target, if delay == 0 { "imm".to_string() } else { format!("del:{}", delay) }, dur, easing));
+	out.push("start".into());
+	// the twin follows the tween through its whole duration and a little beyond, in blocks of N frames
+	let frames = ((delay + dur) as f64 * 1e-9 * sr as f64).ceil() as u64;
+	let count = frames.div_ceil(n) + 2;
+	let half = (count / 2).max(1);
+	out.push(format!("run noise {} {} {} {} {} {}", o32(amp), o64(0.0), seed, o64(dt), n, half));
+	out.push(format!("run noise {} {} {} {} {} {}", o32(amp), o64(0.0), seed ^ 0x5555, o64(dt), n, count - half + 1));
+	out.push(format!("twchk {} {} {} {} {} {} {} {} {} {}", sr, n, param, target, delay, dur, easing, o32(amp), seed, new));
+	stats.hit("tween_time_case");
+	stats.hit(&format!("tween_time_{}_{}", kind, param));
 }
